@@ -388,8 +388,30 @@ static void op_crystal_transient(uint32_t j, rec_t *r, xrl_error **e) {
     if (mode == 0) Crystal_Free(c);
 }
 
+/* lookups in USER arrays in every storage state: args cap (Crystal_ArrayInit capacity), nadd (crystals added first: copies of the first nadd built-in crystals), name.
+   v0 = 1 if a crystal came back, v1 = its atom count */
+static void op_getcrystal_user(uint32_t j, rec_t *r, xrl_error **e) {
+    int off = trk_on; trk_on = 0;
+    Crystal_Array *a = Crystal_ArrayInit(I(0), NULL);
+    for (int i = 0; a && i < I(1); i++) { Crystal_Struct *b = crystal_of(i); if (b) Crystal_AddCrystal(b, a, NULL); }
+    trk_on = off;
+    if (!a) { r->flags |= F_AUX; return; }
+    Crystal_Struct *c = Crystal_GetCrystal(S(2), a, e);
+    if (!c) r->flags |= F_NULLOBJ; else { r->v[0] = 1; r->v[1] = c->n_atom; Crystal_Free(c); }
+    trk_on = 0; Crystal_ArrayFree(a); trk_on = off;
+}
+static void op_listcrystals_user(uint32_t j, rec_t *r, xrl_error **e) {
+    int off = trk_on; trk_on = 0;
+    Crystal_Array *a = Crystal_ArrayInit(I(0), NULL);
+    for (int i = 0; a && i < I(1); i++) { Crystal_Struct *b = crystal_of(i); if (b) Crystal_AddCrystal(b, a, NULL); }
+    trk_on = off;
+    if (!a) { r->flags |= F_AUX; return; }
+    int n = -7; char **l = Crystal_GetCrystalsList(a, I(2) ? &n : NULL, e); ser_list(j, l, n, r);
+    trk_on = 0; Crystal_ArrayFree(a); trk_on = off;
+}
+
 const op_t optab[] = {
-    { "crystal_transient", op_crystal_transient },
+    { "crystal_transient", op_crystal_transient }, { "getcrystal_user", op_getcrystal_user }, { "listcrystals_user", op_listcrystals_user },
     { "CompoundParser", op_CompoundParser }, { "add_compound_data", op_add_compound_data },
     { "NISTByName", op_NISTByName }, { "NISTByIndex", op_NISTByIndex }, { "NISTList", op_NISTList },
     { "RadioByName", op_RadioByName }, { "RadioByIndex", op_RadioByIndex }, { "RadioList", op_RadioList },
